@@ -148,3 +148,37 @@ func VP_C02_twice() {
 		vpReach("second-refused")
 	}
 }
+
+//vp:property C02 C12
+//vp:bounds a token minted by GeneratePAAToken (user, host, address, access token: 2 symbolic bytes each) is presented to CheckPAACookie at any instant within ten seconds of minting, from a context whose IdP honours the access token
+//vp:assume the serialised token carries exactly the claims handed to the builder, signed with the signer's key and algorithm (go-jose contract)
+//vp:reach accepted
+func VP_C02_mint_then_verify() {
+	vpResetJose()
+	vpSetKeys()
+	user, server, ip, at := vpStringN("user", 2), vpStringN("server", 2), vpStringN("ip", 2), vpStringN("at", 2)
+	id := identity.NewUser()
+	id.SetAttribute(identity.AttrClientIp, ip)
+	id.SetAttribute(identity.AttrAccessToken, at)
+	tok, err := GeneratePAAToken(vpCtxWith(nil, id), user, server)
+	vpAssume(err == nil && tok != "" && vpMintClaims != nil && vpMintPrivate != nil && vpMintClaims.Expiry != nil)
+	minted := vpLastNow
+	// the token as the verifier will see it: exactly what was minted
+	vpIdpPerCall = false
+	vpTokClaimsMade = true
+	vpTokIssuer, vpTokSubject = vpMintClaims.Issuer, vpMintClaims.Subject
+	vpTokExp, vpTokNbf, vpTokIat = vpMintClaims.Expiry, vpMintClaims.NotBefore, vpMintClaims.IssuedAt
+	vpTokCustom = *vpMintPrivate
+	vpMintedToken = true
+	vpMintedAlg, vpMintedKeyIs = vpMintSignerAlg, string(vpMintSignerKey) == string(SigningKey)
+	defer func() { vpMintedToken = false }()
+	// presented within the token's lifetime
+	tun := &protocol.Tunnel{User: identity.NewUser()}
+	ok, _ := CheckPAACookie(vpCtxWith(tun, id), tok)
+	presented := vpLastNow
+	vpAssume(presented <= minted+10) // "freshly minted": presented within ten seconds (the property fixes only the upper bound of the lifetime)
+	vpAssume(vpBool("idp-honours-token"))
+	vpReach("accepted")
+	vpAssert(ok, "a-freshly-minted-token-is-accepted")
+	vpAssert(tun.TargetServer == server && tun.RemoteAddr == ip, "accepted-token-binds-the-tunnel-to-the-minted-host-and-address")
+}
